@@ -424,6 +424,7 @@ func runC08(c *Ctx) {
 	runC08Bounds(c)
 	runC08Buffers(c)
 	runC08OneOfPresence(c)
+	runC08Round4(c)
 }
 
 func uniq(a, b string) []string {
